@@ -134,6 +134,7 @@ class Program:
         text = _re.sub(r'(?<![A-Za-z0-9_])(?:core|alloc)::', 'std::', text)
         self.j = json.loads(text)
         self.inline_report = None
+        self.alias_report = []
         if config != "fixture":
             from .inline import inline_new_helpers
             import os as _os
@@ -143,6 +144,13 @@ class Program:
             except OSError:
                 known = None
             if known:
+                from .inline import alias_moved
+                sp = _os.path.join(_os.path.dirname(kp), "known_signatures.json")
+                try:
+                    sigs = json.load(open(sp))
+                except OSError:
+                    sigs = {}
+                self.alias_report = alias_moved(self.j, known, sigs)
                 self.inline_report = inline_new_helpers(self.j, known)
         self.fns = {}
         dup = set()
